@@ -455,15 +455,12 @@ func fromCompactValue(v Value, s encoding.Strings, nt *NamespaceTable) b6.Expres
 	case *ReferencesAndLatLngs:
 		vs := make([]b6.AnyExpression, 0, len(*v))
 		for _, r := range *v {
-			var rll b6.AnyExpression
 			if r.Reference != ReferenceInvald {
 				typ, ns := r.Reference.TypeAndNamespace.Split()
-				rll = b6.FeatureIDExpression(b6.FeatureID{typ, nt.Decode(ns), r.Reference.Value})
+				vs = append(vs, b6.FeatureIDExpression(b6.FeatureID{typ, nt.Decode(ns), r.Reference.Value}))
 			} else {
 				vs = append(vs, b6.PointExpression(r.LatLng.ToS2LatLng()))
 			}
-
-			vs = append(vs, rll)
 		}
 		return b6.NewExpressions(vs)
 	default:
